@@ -9,10 +9,17 @@ from .facts import place_parts, op_place, term_succs
 UNKNOWN = None
 
 
+class Alt:
+    """oracle answer with several alternatives: [(value, tag), ...]; the path forks, tags accumulate"""
+    def __init__(self, alts):
+        self.alts = alts
+
+
 class State:
-    __slots__ = ("env", "refs", "trace", "calls", "visits")
+    __slots__ = ("env", "refs", "trace", "calls", "visits", "tags")
 
     def __init__(self):
+        self.tags = []
         self.env = {}      # local -> scalar (bool/int)
         self.refs = {}     # local -> local it points to
         self.trace = []    # blocks visited
@@ -26,6 +33,7 @@ class State:
         s.trace = list(self.trace)
         s.calls = list(self.calls)
         s.visits = dict(self.visits)
+        s.tags = list(self.tags)
         return s
 
 
@@ -125,6 +133,11 @@ def explore(fn, oracle, init=None, max_states=4000, max_visits=2, stop_at=None):
                     pl, pp = place_parts(r["p"])
                     if not pp:
                         val = st.env.get(pl, UNKNOWN)
+                    elif pp == ["*"] and pl in st.refs:
+                        val = st.env.get(st.refs[pl], UNKNOWN)
+                elif k == "agg" and r.get("ak") == "adt" and r.get("vidx") is not None:
+                    # enums are abstracted to their discriminant
+                    val = r["vidx"]
                 if val is UNKNOWN:
                     st.env.pop(dl, None)
                 else:
@@ -144,6 +157,22 @@ def explore(fn, oracle, init=None, max_states=4000, max_visits=2, stop_at=None):
                 st.calls.append((bb, t))
                 val = oracle(st, bb, t)
                 dl, dprojs = place_parts(t["d"])
+                if isinstance(val, Alt):
+                    if t.get("t") is None:
+                        out.append((st, "diverge"))
+                        break
+                    for v2, tag in val.alts[1:]:
+                        s2 = st.fork()
+                        s2.tags.append((bb, tag))
+                        if not dprojs:
+                            s2.refs.pop(dl, None)
+                            if v2 is UNKNOWN:
+                                s2.env.pop(dl, None)
+                            else:
+                                s2.env[dl] = v2
+                        work.append((s2, t["t"]))
+                    val, tag = val.alts[0]
+                    st.tags.append((bb, tag))
                 if not dprojs:
                     st.refs.pop(dl, None)
                     if val is UNKNOWN:
